@@ -1,6 +1,7 @@
 import CasbinVerif.Spec.Persist
 import CasbinVerif.Properties.C04
 import CasbinVerif.Proofs.C10Reload
+import CasbinVerif.Proofs.Updatable
 /-
   C10 — What is persisted is what is enforced.
 
@@ -66,5 +67,27 @@ theorem reload_mirror (e : Enf) (h : Inv e) (hm : e.LinksMirror) (hb : e.autoBui
   obtain ⟨a1, b, c, d, f, g, k⟩ := h
   obtain ⟨_, _, _, h4, h5⟩ := reload_all ⟨a1, b, c, d, f, g, k⟩ hb a ha
   exact ⟨h4, h5⟩
+
+/-- the repair of findings D12 and D18: an update that `updatable` refuses — an old rule that is
+    not listed, a new rule that is already listed, a rule named twice — reports false and changes
+    nothing: the adapter is not called and memory is as it was -/
+theorem refused_update_untouched (e : Enf) (sec pt : String) (olds news : List Rule) (s : Store)
+    (hs : e.getStore sec pt = some s) (hlen : olds.length = news.length)
+    (hg : Enf.updatable s olds news = false) :
+    e.updatePoliciesWN sec pt olds news = (e, .ok false) := by
+  rw [Enf.updatePoliciesWN_eq]
+  simp [hlen, hs, hg]
+
+theorem refused_single_update_untouched (e : Enf) (sec pt : String) (old new : Rule) (s : Store)
+    (hs : e.getStore sec pt = some s) (hg : Enf.updatable s [old] [new] = false) :
+    e.updatePolicyWN sec pt old new = (e, .ok false) := by
+  rw [Enf.updatePolicyWN_eq]
+  simp [hs, hg]
+
+/-- what `updatable` refuses, on one pair: exactly an unlisted old rule or a listed new rule with another key -/
+theorem updatable_single (s : Store) (old new : Rule) :
+    Enf.updatable s [old] [new] = (s.has old && (ruleKey new == ruleKey old || !s.has new)) := by
+  simp only [Enf.updatable, List.zip_cons_cons, List.zip_nil_right, Enf.updatableFrom]
+  cases s.has old <;> cases ruleKey new == ruleKey old <;> cases s.has new <;> simp
 
 end Casbin.C10
